@@ -85,6 +85,19 @@ Definition set_node (h : heap) (n : nat) (nd : node) : heap :=
 Definition fresh_leaf (h : heap) (vals : list Z) : heap * view :=
   let '(h1, s) := alloc_stor h vals in (h1, mkView s (seq 0 (List.length vals))).
 
+(* torch.preserve_format (clone, TensorIterator outputs): a non-overlapping and dense input (its cells are a
+   permutation of a contiguous range) gives an output with the same relative layout; anything else gives a
+   contiguous output *)
+Definition list_min (l : list nat) : nat := fold_right Nat.min (hd 0 l) l.
+Definition list_max (l : list nat) : nat := fold_right Nat.max 0 l.
+Definition denseb (cs : list nat) : bool :=
+  nodupb cs && Nat.eqb (list_max cs + 1 - list_min cs) (List.length cs).
+Definition fresh_like (h : heap) (v : view) (vals : list Z) : heap * view :=
+  if denseb (vcells v) && Nat.eqb (List.length vals) (List.length (vcells v)) then
+    let rel := map (fun c => c - list_min (vcells v)) (vcells v) in
+    let '(h1, s) := alloc_stor h (wr_cells (repeat 0%Z (List.length vals)) rel vals) in (h1, mkView s rel)
+  else fresh_leaf h vals.
+
 (* ---------------------------------------------------------------- views of views *)
 (* the part of a view selected by batch positions [bsel] when the view has [nb] batch positions: element (p, j) of
    the result is element (nth p bsel, j) of the source, j ranging over the f = |cells| / nb trailing feature cells *)
